@@ -151,6 +151,10 @@ func C19(blk *hist.Block) []Finding {
 			if !isActive(blk.Prev, who) && !isActive(blk.Cur, who) {
 				out = append(out, Finding{"C19", "C19/non-active/ALLEGATION", fmt.Sprintf("block %d: allegation opened by %s, which is not an active validator before or after the block", blk.H, who)})
 			}
+			// (a validator found guilty and not released has dropped out, whatever its status flag says)
+			if f := freezeOf(blk.Prev, who); f != nil && Frozen(blk.Prev, who) && Frozen(blk.Cur, who) && f.Status == 2 && f.FrozenHeight < blk.H-1 {
+				out = append(out, Finding{"C19", "C19/frozen/ALLEGATION", fmt.Sprintf("block %d: allegation opened by %s although it was found guilty at height %d and has not been released", blk.H, who, f.FrozenHeight)})
+			}
 			opened[PString(p, "RequestID")] = &allegReq{ID: PString(p, "RequestID"), MaliciousAddress: PString(p, "MaliciousAddress")}
 		case "ALLEGATION_VOTE":
 			who := PString(p, "Address")
